@@ -327,6 +327,21 @@ def check_payload(ctx, writer, reader, what):
               f'{what}: the backend deserialises `{norm(src)}` instead of the payload', where=loc(reader, unpacks[0]))
 
 
+def closure_reads(ctx, cls, f, chan, readers, depth=0, seen=None):
+    """f calls (transitively, through self-methods) a function that reads the outcome channel while the child may be alive"""
+    seen = seen if seen is not None else set()
+    if f.qualname in seen or depth > 3:
+        return False
+    seen.add(f.qualname)
+    for c in calls_in(f.node):
+        if receiver(c) in ('self', 'super()'):
+            r = ctx.prog.resolve_call(c, f, cls)
+            if r and r[0] == 'func':
+                if r[1] in readers or closure_reads(ctx, cls, r[1], chan, readers, depth + 1, seen):
+                    return True
+    return False
+
+
 def check_join_drain(ctx):
     P = ctx.prog
     for name in ('ProcessWorker', 'PersistentProcessWorker'):
@@ -347,7 +362,9 @@ def check_join_drain(ctx):
             for f in c.methods.values():
                 if f is gr or f.name in ('_start',):
                     continue
-                if any(last_attr(x) in ('get', 'recv', 'poll') and (receiver(x) or '') == f'self.{chan}.parent_end' for x in calls_in(f.node)):
+                if any(last_attr(x) in ('get', 'recv') and (receiver(x) or '') == f'self.{chan}.parent_end' for x in calls_in(f.node)) and \
+                        any((last_attr(x) == 'poll' and (receiver(x) or '') == f'self.{chan}.parent_end') or
+                            ((dotted(x.func) or '').endswith('connection.wait') and f'self.{chan}.parent_end' in norm(x)) for x in calls_in(f.node)):
                     other_readers.append(f)
         for m in ('wait', 'terminate'):
             _, f = cls.resolve(m)
@@ -356,7 +373,7 @@ def check_join_drain(ctx):
             joins = [c for c in calls_in(f.node) if last_attr(c) == 'join' and receiver(c) == 'self._child']
             if not joins:
                 continue
-            drains = f in other_readers
+            drains = f in other_readers or closure_reads(ctx, cls, f, chan, other_readers)
             ok = not gated or drains
             ctx.check('R5', f'{f.short}: the join is not part of a wait-for cycle with the result pipe', ok, f.short, f'join-before-drain:{chan}',
                       f'{f.short} joins the child process while the result pipe `{chan}` is only read by {gr.short} once the child is dead: a child sending a result '
